@@ -105,14 +105,15 @@ def chi_body(case):
 @st.composite
 def pcomp_case(draw):
     return dict(no=draw(st.one_of(st.integers(20, 80), st.integers(20, 80), st.integers(3, 8))), nv=draw(st.sampled_from([3, 4, 2, 6, 5])), seed=draw(st.integers(0, 10 ** 6)),
-                covariance=draw(st.booleans()), standardize=draw(st.booleans()), scale=draw(st.sampled_from([1.0, 100.0])))
+                covariance=draw(st.booleans()), standardize=draw(st.booleans()), scale=draw(st.sampled_from([1.0, 100.0])),
+                offset=draw(st.sampled_from([3.0, 3.0, 1e8, 2.4e6])))
 
 
 def pcomp_body(case):
     from pydl import pcomp
     no, nv = case['no'], case['nv']
     mix = pseudo(case['seed'] + 5, (nv, nv))
-    X = pseudo(case['seed'], (no, nv)).dot(mix) * case['scale'] + 3.0
+    X = pseudo(case['seed'], (no, nv)).dot(mix) * case['scale'] + case.get('offset', 3.0)       # e.g. Julian dates: an offset 1e6-1e8 times the scatter
     keep = X.copy()
     p = call(pcomp, X, standardize=case['standardize'], covariance=case['covariance'])
     arr = (X - X.mean(0)) / X.std(0) if case['standardize'] else X
@@ -283,23 +284,32 @@ def pca_case(draw):
     if draw(st.integers(0, 30)) == 0:
         base['N'] = draw(st.sampled_from([270, 300, 257]))        # survey-sized samples: more spectra than a byte can count
         base['M'] = 20
-    return dict(base, nkeep=draw(st.sampled_from([2, 1, 3])), niter=draw(st.sampled_from([2, 3])), dead=draw(st.sampled_from([0, 0, 1, 2])))
+    return dict(base, nkeep=draw(st.sampled_from([2, 1, 3])), niter=draw(st.sampled_from([2, 3])), dead=draw(st.sampled_from([0, 0, 1, 2])),
+                maxiter=draw(st.sampled_from([None, None, 1, 0, 2])), fewer=draw(st.booleans()))
 
 
 def pca_body(case):
     from pydl.pydlspec2d.spec1d import pca_solve
     sp, iv = hmf_data(case)
     nk = min(case['nkeep'], case['K'] + 1)
-    out = call(pca_solve, sp.copy(), iv.copy(), nkeep=nk, niter=case['niter'])
+    extra = {}
+    if case.get('maxiter') is not None:
+        extra['maxiter'] = case['maxiter']
+    nret = nk
+    if case.get('fewer') and nk > 1:
+        nret = nk - 1              # fewer eigenspectra returned than kept in the iteration
+        extra['nreturn'] = nret
+    out = call(pca_solve, sp.copy(), iv.copy(), nkeep=nk, niter=case['niter'], **extra)
+    nkeep_used, nk = nk, nret
     with judge('pca_solve'):
         flux = np.asarray(out['flux'], dtype='f8')
         ac = np.asarray(out['acoeff'], dtype='f8')
         ev = np.asarray(out['eigenval'], dtype='f8')
         N, M = sp.shape
-        check(flux.shape == (nk, M) and ac.shape == (N, nk) and ev.shape == (nk,), 'pca:shapes', lambda: dict(flux=flux.shape, acoeff=ac.shape, ev=ev.shape))
+        check(flux.shape == (nk, M) and ac.shape == (N, nkeep_used) and ev.shape == (nk,), 'pca:shapes', lambda: dict(flux=flux.shape, acoeff=ac.shape, ev=ev.shape))
         check(bool(np.all(np.diff(ev) <= 1e-9 * abs(ev[0]))), 'pca:eigenvalues-increase', lambda: dict(ev=ev.tolist()))
         check(np.array_equal(np.asarray(out['usemask']), (iv != 0).sum(0)), 'pca:usemask-not-count-of-good-spectra')
-        for i in range(N):
+        for i in range(N if nk == nkeep_used else 0):        # coefficients refer to all kept eigenspectra: checkable when all are returned
             w = np.sqrt(iv[i])
             B = flux.T * w[:, None]
             if np.linalg.cond(B) < 1e3:
